@@ -170,6 +170,13 @@ func (s *session) dir(name string) string {
 	if strings.HasPrefix(name, "u.") {
 		return s.base + "/./" + name
 	}
+	// "t.": with a trailing separator, "v.": with a trailing "/." (the way shell completion and path joins leave them)
+	if strings.HasPrefix(name, "t.") {
+		return s.base + "/" + name + "/"
+	}
+	if strings.HasPrefix(name, "v.") {
+		return s.base + "/" + name + "/."
+	}
 	return filepath.Join(s.base, name)
 }
 
